@@ -220,9 +220,12 @@ class Gen:
         """thread / waitthread call of a later label (mostly), with some parameters"""
         r = self.r
         later = self.labels[self.cur + 1:]
-        lab = r.choice(later) if later and r.random() > 0.015 else r.choice(self.labels)
-        if not later and r.random() < 0.7:
+        if later and r.random() > 0.015:
+            lab = r.choice(later)               # calls form a DAG: no unbounded recursion
+        elif r.random() < 0.85:
             lab = "nolabel"                     # the last label calls nobody (or fails to)
+        else:
+            lab = r.choice(self.labels)         # now and then: recursion until MaxStackDepth
         if r.random() < self.errors:
             lab = "nolabel"
         n = self.nparams.get(lab, 1)
